@@ -86,6 +86,7 @@ def run(tier, seed):
     drv, err = build_driver()
     if err:
         res.broken.append(("model driver build", err))
+        drv = NO_MODEL
     names = (st.get("modules", {}).get(GENMOD, {}) or {}).get("names", [])
     T = kernel_table("avx")
     missing = [k for k in T if k not in names]
